@@ -816,6 +816,95 @@ impl<'a, W: Write> YamlSerializer<'a, W> {
         Ok(())
     }
 
+    /// Open a sequence (flow or block) at the current position: write whatever has to precede
+    /// its first element and return the indentation depth of its items and whether it is in
+    /// flow style. Shared by sequences, tuples, tuple structs and tuple variants.
+    fn begin_seq(&mut self) -> Result<(usize, bool)> {
+        let flow = self.take_flow_for_seq();
+        if flow {
+            self.write_scalar_prefix_if_anchor()?;
+            // Ensure a space after a preceding colon when this sequence is a mapping value.
+            self.write_space_if_pending()?;
+            if self.at_line_start {
+                self.write_indent(self.depth)?;
+            }
+            self.out.write_str("[")?;
+            self.at_line_start = false;
+            let depth_next = self.depth; // inline
+            Ok((depth_next, true))
+        } else {
+            // Block sequence. Decide indentation based on whether this is after a map key or after a list dash.
+            let was_inline_value = !self.at_line_start;
+
+            // If we are a value following a block sibling, force a newline now.
+            // However, if a complex-node anchor is pending, we must keep `key: &aN` inline;
+            // `write_anchor_for_complex_node` will handle emitting the anchor and newline.
+            if self.pending_space_after_colon
+                && self.last_value_was_block
+                && self.pending_anchor_id.is_none()
+            {
+                self.pending_space_after_colon = false;
+                if !self.at_line_start {
+                    self.newline()?;
+                }
+                // Consume the sibling-block marker; it should not affect nested nodes.
+                self.last_value_was_block = false;
+            }
+
+            // For block sequences nested under another dash, keep the first inner dash inline.
+            // Style expectations in tests prefer the compact form:
+            // - - 1
+            // instead of:
+            // -
+            //   - 1
+            let inline_first = (!self.at_line_start)
+                && self.after_dash_depth.is_some()
+                && !self.pending_space_after_colon;
+            // If we are a mapping value (space after colon was pending), we will handle
+            // the newline later in SeqSer::serialize_element to keep empty sequences inline.
+            self.write_anchor_for_complex_node()?;
+            if inline_first {
+                // Keep staged inline (pending_inline_map) so the child can inline its first dash.
+                // Ensure we stay mid-line so the child can emit its first dash inline.
+                self.at_line_start = false;
+            } else if was_inline_value {
+                // Mid-line start. If we are here due to a map value (after ':'), defer the newline
+                // decision until the first element is emitted so that empty sequences can stay inline
+                // as `key: []`. If we are here due to a list dash, keep inline.
+                // Intentionally do not clear `pending_space_after_colon` and do not newline here.
+            }
+            // Indentation policy mirrors serialize_map:
+            // - After a list dash inline_first: base is dash depth; indent one level deeper.
+            // - As a value after a map key: base is current_map_depth (if set), indent one level deeper.
+            // - Otherwise (top-level or already at line start): base is current depth.
+            let base = if inline_first {
+                self.after_dash_depth.unwrap_or(self.depth)
+            } else if was_inline_value && self.current_map_depth.is_some() {
+                self.current_map_depth.unwrap_or(self.depth)
+            } else {
+                self.depth
+            };
+            // For sequences used as a mapping value, indent them one level deeper so the dash is
+            // nested under the parent key (consistent with serde_yaml's formatting). Keep block
+            // sequences inline only when they immediately follow another dash.
+            let depth_next = if inline_first {
+                base + 1
+            } else if was_inline_value {
+                if self.compact_list_indent && self.current_map_depth.is_some() {
+                    base
+                } else {
+                    base + 1
+                }
+            } else {
+                base
+            };
+            // Starting a complex (block) sequence: drop any staged inline comment.
+            self.pending_inline_comment = None;
+            Ok((depth_next, false))
+        }
+    }
+
+
     /// Determine whether the next sequence should be emitted in flow style.
     /// Consumes any pending flow hint.
     #[inline]
@@ -1378,98 +1467,13 @@ impl<'a, 'b, W: Write> Serializer for &'a mut YamlSerializer<'b, W> {
     // -------- Collections --------
 
     fn serialize_seq(self, _len: Option<usize>) -> Result<Self::SerializeSeq> {
-        let flow = self.take_flow_for_seq();
-        if flow {
-            self.write_scalar_prefix_if_anchor()?;
-            // Ensure a space after a preceding colon when this sequence is a mapping value.
-            self.write_space_if_pending()?;
-            if self.at_line_start {
-                self.write_indent(self.depth)?;
-            }
-            self.out.write_str("[")?;
-            self.at_line_start = false;
-            let depth_next = self.depth; // inline
-            Ok(SeqSer {
-                ser: self,
-                depth: depth_next,
-                flow: true,
-                first: true,
-            })
-        } else {
-            // Block sequence. Decide indentation based on whether this is after a map key or after a list dash.
-            let was_inline_value = !self.at_line_start;
-
-            // If we are a value following a block sibling, force a newline now.
-            // However, if a complex-node anchor is pending, we must keep `key: &aN` inline;
-            // `write_anchor_for_complex_node` will handle emitting the anchor and newline.
-            if self.pending_space_after_colon
-                && self.last_value_was_block
-                && self.pending_anchor_id.is_none()
-            {
-                self.pending_space_after_colon = false;
-                if !self.at_line_start {
-                    self.newline()?;
-                }
-                // Consume the sibling-block marker; it should not affect nested nodes.
-                self.last_value_was_block = false;
-            }
-
-            // For block sequences nested under another dash, keep the first inner dash inline.
-            // Style expectations in tests prefer the compact form:
-            // - - 1
-            // instead of:
-            // -
-            //   - 1
-            let inline_first = (!self.at_line_start)
-                && self.after_dash_depth.is_some()
-                && !self.pending_space_after_colon;
-            // If we are a mapping value (space after colon was pending), we will handle
-            // the newline later in SeqSer::serialize_element to keep empty sequences inline.
-            self.write_anchor_for_complex_node()?;
-            if inline_first {
-                // Keep staged inline (pending_inline_map) so the child can inline its first dash.
-                // Ensure we stay mid-line so the child can emit its first dash inline.
-                self.at_line_start = false;
-            } else if was_inline_value {
-                // Mid-line start. If we are here due to a map value (after ':'), defer the newline
-                // decision until the first element is emitted so that empty sequences can stay inline
-                // as `key: []`. If we are here due to a list dash, keep inline.
-                // Intentionally do not clear `pending_space_after_colon` and do not newline here.
-            }
-            // Indentation policy mirrors serialize_map:
-            // - After a list dash inline_first: base is dash depth; indent one level deeper.
-            // - As a value after a map key: base is current_map_depth (if set), indent one level deeper.
-            // - Otherwise (top-level or already at line start): base is current depth.
-            let base = if inline_first {
-                self.after_dash_depth.unwrap_or(self.depth)
-            } else if was_inline_value && self.current_map_depth.is_some() {
-                self.current_map_depth.unwrap_or(self.depth)
-            } else {
-                self.depth
-            };
-            // For sequences used as a mapping value, indent them one level deeper so the dash is
-            // nested under the parent key (consistent with serde_yaml's formatting). Keep block
-            // sequences inline only when they immediately follow another dash.
-            let depth_next = if inline_first {
-                base + 1
-            } else if was_inline_value {
-                if self.compact_list_indent && self.current_map_depth.is_some() {
-                    base
-                } else {
-                    base + 1
-                }
-            } else {
-                base
-            };
-            // Starting a complex (block) sequence: drop any staged inline comment.
-            self.pending_inline_comment = None;
-            Ok(SeqSer {
-                ser: self,
-                depth: depth_next,
-                flow: false,
-                first: true,
-            })
-        }
+        let (depth, flow) = self.begin_seq()?;
+        Ok(SeqSer {
+            ser: self,
+            depth,
+            flow,
+            first: true,
+        })
     }
 
     fn serialize_tuple(self, len: usize) -> Result<Self::SerializeTuple> {
@@ -1489,7 +1493,7 @@ impl<'a, 'b, W: Write> Serializer for &'a mut YamlSerializer<'b, W> {
             Ok(TupleSer::commented(self))
         } else {
             // Treat as normal block sequence
-            Ok(TupleSer::normal(self))
+            TupleSer::normal(self)
         }
     }
 
@@ -1500,16 +1504,40 @@ impl<'a, 'b, W: Write> Serializer for &'a mut YamlSerializer<'b, W> {
         variant: &'static str,
         _len: usize,
     ) -> Result<Self::SerializeTupleVariant> {
-        if self.at_line_start {
-            self.write_indent(self.depth)?;
+        // `Variant:` followed by the fields as a sequence in value position - the same layout
+        // decisions as for a newtype variant whose payload is a sequence.
+        let prev_map_depth = self.current_map_depth;
+        if self.pending_space_after_colon {
+            // We are the value of a mapping key: "key: Variant: ..." is not valid inline.
+            self.pending_space_after_colon = false;
+            self.newline()?;
+            let base = self.current_map_depth.unwrap_or(self.depth);
+            self.write_indent(base + 1)?;
+            self.write_plain_or_quoted(variant)?;
+            self.out.write_str(":")?;
+            self.pending_space_after_colon = true;
+            self.at_line_start = false;
+            self.pending_inline_map = false;
+            self.current_map_depth = Some(base + 1);
+        } else {
+            if self.at_line_start {
+                self.write_indent(self.depth)?;
+            }
+            self.write_plain_or_quoted(variant)?;
+            self.out.write_str(":")?;
+            self.pending_space_after_colon = true;
+            self.at_line_start = false;
+            self.pending_inline_map = false;
+            let base = self.after_dash_depth.take().unwrap_or(self.depth);
+            self.current_map_depth = Some(base + 1);
         }
-        self.write_plain_or_quoted(variant)?;
-        self.out.write_str(":\n")?;
-        self.at_line_start = true;
-        let depth_next = self.depth + 1;
+        let (depth, flow) = self.begin_seq()?;
         Ok(TupleVariantSer {
             ser: self,
-            depth: depth_next,
+            depth,
+            flow,
+            first: true,
+            prev_map_depth,
         })
     }
 
@@ -1798,6 +1826,8 @@ pub struct TupleSer<'a, 'b, W: Write> {
     ser: &'a mut YamlSerializer<'b, W>,
     /// Variant describing how to interpret fields.
     kind: TupleKind,
+    /// For normal tuple-structs: whether the sequence is written in flow style.
+    normal_flow: bool,
     /// Current field index being serialized.
     idx: usize,
     /// For normal tuples: target indentation depth.
@@ -1824,11 +1854,12 @@ enum TupleKind {
 }
 impl<'a, 'b, W: Write> TupleSer<'a, 'b, W> {
     /// Create a tuple serializer for normal tuple-structs.
-    fn normal(ser: &'a mut YamlSerializer<'b, W>) -> Self {
-        let depth_next = ser.depth + 1;
-        Self {
+    fn normal(ser: &'a mut YamlSerializer<'b, W>) -> Result<Self> {
+        let (depth_next, flow) = ser.begin_seq()?;
+        Ok(Self {
             ser,
             kind: TupleKind::Normal,
+            normal_flow: flow,
             idx: 0,
             depth_for_normal: depth_next,
             strong_alias_id: None,
@@ -1836,13 +1867,14 @@ impl<'a, 'b, W: Write> TupleSer<'a, 'b, W> {
             skip_third: false,
             weak_alias_id: None,
             comment_text: None,
-        }
+        })
     }
     /// Create a tuple serializer for internal strong-anchor payloads.
     fn anchor_strong(ser: &'a mut YamlSerializer<'b, W>) -> Self {
         Self {
             ser,
             kind: TupleKind::AnchorStrong,
+            normal_flow: false,
             idx: 0,
             depth_for_normal: 0,
             strong_alias_id: None,
@@ -1857,6 +1889,7 @@ impl<'a, 'b, W: Write> TupleSer<'a, 'b, W> {
         Self {
             ser,
             kind: TupleKind::AnchorWeak,
+            normal_flow: false,
             idx: 0,
             depth_for_normal: 0,
             strong_alias_id: None,
@@ -1871,6 +1904,7 @@ impl<'a, 'b, W: Write> TupleSer<'a, 'b, W> {
         Self {
             ser,
             kind: TupleKind::Commented,
+            normal_flow: false,
             idx: 0,
             depth_for_normal: 0,
             strong_alias_id: None,
@@ -1889,16 +1923,14 @@ impl<'a, 'b, W: Write> SerializeTupleStruct for TupleSer<'a, 'b, W> {
     fn serialize_field<T: ?Sized + Serialize>(&mut self, value: &T) -> Result<()> {
         match self.kind {
             TupleKind::Normal => {
-                if self.idx == 0 {
-                    self.ser.write_anchor_for_complex_node()?;
-                    if !self.ser.at_line_start {
-                        self.ser.newline()?;
-                    }
-                }
-                self.ser.write_indent(self.ser.depth + 1)?;
-                self.ser.out.write_str("- ")?;
-                self.ser.at_line_start = false;
-                value.serialize(&mut *self.ser)?;
+                // A tuple struct is a sequence: let the sequence serializer lay it out.
+                let mut seq = SeqSer {
+                    ser: &mut *self.ser,
+                    depth: self.depth_for_normal,
+                    flow: self.normal_flow,
+                    first: self.idx == 0,
+                };
+                SerializeSeq::serialize_element(&mut seq, value)?;
             }
             TupleKind::AnchorStrong => {
                 match self.idx {
@@ -2006,6 +2038,15 @@ impl<'a, 'b, W: Write> SerializeTupleStruct for TupleSer<'a, 'b, W> {
     }
 
     fn end(self) -> Result<()> {
+        if matches!(self.kind, TupleKind::Normal) {
+            let seq = SeqSer {
+                ser: self.ser,
+                depth: self.depth_for_normal,
+                flow: self.normal_flow,
+                first: self.idx == 0,
+            };
+            return SerializeSeq::end(seq);
+        }
         Ok(())
     }
 }
@@ -2020,18 +2061,38 @@ pub struct TupleVariantSer<'a, 'b, W: Write> {
     ser: &'a mut YamlSerializer<'b, W>,
     /// Target indentation depth for the fields.
     depth: usize,
+    /// Whether the field sequence is written in flow style.
+    flow: bool,
+    /// Whether the next field is the first one.
+    first: bool,
+    /// Mapping depth to restore once the variant is complete.
+    prev_map_depth: Option<usize>,
 }
 impl<'a, 'b, W: Write> SerializeTupleVariant for TupleVariantSer<'a, 'b, W> {
     type Ok = ();
     type Error = Error;
 
     fn serialize_field<T: ?Sized + Serialize>(&mut self, value: &T) -> Result<()> {
-        self.ser.write_indent(self.depth)?;
-        self.ser.out.write_str("- ")?;
-        self.ser.at_line_start = false;
-        value.serialize(&mut *self.ser)
+        let mut seq = SeqSer {
+            ser: &mut *self.ser,
+            depth: self.depth,
+            flow: self.flow,
+            first: self.first,
+        };
+        SerializeSeq::serialize_element(&mut seq, value)?;
+        self.first = false;
+        Ok(())
     }
     fn end(self) -> Result<()> {
+        let prev = self.prev_map_depth;
+        let seq = SeqSer {
+            ser: &mut *self.ser,
+            depth: self.depth,
+            flow: self.flow,
+            first: self.first,
+        };
+        SerializeSeq::end(seq)?;
+        self.ser.current_map_depth = prev;
         Ok(())
     }
 }
